@@ -149,6 +149,7 @@ structure Fixed where
   topBase : List (Nat × List Operand)
   privBase : List (List (Nat × List Operand))
   fdBase : List (List (Nat × List Operand))   -- Font DICT entries other than Private
+  expert : Bool := false                      -- `topDict[opEncoding] = 1` (Expert encoding)
 deriving Repr
 
 /-- section numbers -/
@@ -203,20 +204,20 @@ def prepare (std : List String) (f : FontIn) : Outcome (Fixed × Secs) :=
       let (sids, c) := stringsLookupAll std custom1 f.names
       (sids.map fun (n : Nat) => (n : Int), c)
   -- encoding
-  let encRes : Outcome (Option Bytes × List (Nat × List Operand)) :=
-    if f.ros.isSome then .ok (none, top1)
+  let encRes : Outcome (Option Bytes × Bool) :=
+    if f.ros.isSome then .ok (none, false)
     else match f.enc with
-      | .standard => .ok (none, top1)
-      | .expert => .ok (none, top1 ++ [(16, [.int 1])])
+      | .standard => .ok (none, false)
+      | .expert => .ok (none, true)
       | .custom e =>
         match encodeEncoding e glyphNames with
-        | .ok b => .ok (some b, top1)
+        | .ok b => .ok (some b, false)
         | .err x => .err x
         | .panic s => .panic s
   match encRes with
   | .err x => .err x
   | .panic s => .panic s
-  | .ok (encB, top2) =>
+  | .ok (encB, expert) =>
     match encodeCharset (if f.ros.isSome then f.cids else glyphNames) with
     | .err x => .err x
     | .panic s => .panic s
@@ -225,7 +226,7 @@ def prepare (std : List String) (f : FontIn) : Outcome (Fixed × Secs) :=
       else
       .ok ({ nameIndex := outOk (indexEncode [f.fontName]), encoding := encB, charsets := cs,
              fdSelect := if f.ros.isSome then some (fdEncode f.fds) else none,
-             charStrings := outOk (indexEncode f.charStrings), custom0 := custom2, topBase := top2,
+             charStrings := outOk (indexEncode f.charStrings), custom0 := custom2, topBase := top1, expert := expert,
              privBase := f.privs.map fun p => makePrivateDict p f.defWidth f.nomWidth,
              fdBase := (List.range f.privs.length).map fun i =>
                fontMatrixEntry (f.fdMatrices.getD i defaultFM) false },
@@ -250,7 +251,7 @@ def mkBlobs (std : List String) (isCID : Bool) (fx : Fixed) (sc : Secs) (offs : 
     [(15, [.int (off sc.charsets)])] ++
     (match fx.encoding with
      | some _ => [(16, [.int (off 5)])]
-     | none => []) ++
+     | none => if fx.expert then [(16, [.int 1])] else []) ++
     [(17, [.int (off sc.charStrings)])] ++
     (match fx.fdSelect with
      | some _ => [(3109, [.int (off 7)]), (3108, [.int (off sc.fontDictIndex)])]
@@ -276,7 +277,7 @@ def mkBlobsFits (std : List String) (isCID : Bool) (fx : Fixed) (sc : Secs) (off
     [(15, [.int (off sc.charsets)])] ++
     (match fx.encoding with
      | some _ => [(16, [.int (off 5)])]
-     | none => []) ++
+     | none => if fx.expert then [(16, [.int 1])] else []) ++
     [(17, [.int (off sc.charStrings)])] ++
     (match fx.fdSelect with
      | some _ => [(3109, [.int (off 7)]), (3108, [.int (off sc.fontDictIndex)])]
